@@ -54,6 +54,9 @@ def violation_data(tcells, prem, fails, info=None):
             "info": info}
 
 
+S1_CLASS = {"kind": "premium_none_from_first_cell"}
+
+
 def directed_cases():
     """Small hand-made inputs: every additive field summed over two slices (10 + 20), F5 probe."""
     from bermuda import CumulativeCell, Metadata
@@ -64,6 +67,11 @@ def directed_cases():
         cells = [CumulativeCell(D(2020, 1, 1), D(2020, 3, 31), D(2020, 3, 31), {f: v}, Metadata(details={"lob": lob}))
                  for lob, v in (("a", 10), ("b", 20))]
         out.append((cells, True, {"kind": f"directed:{f}", "field": f}))
+    # probe of known finding S1: the (sorted-)first slice lacks the premium field
+    a = CumulativeCell(D(2020, 1, 1), D(2020, 12, 31), D(2020, 12, 31), {"paid_loss": 10}, Metadata(loss_details={"cov": "a"}))
+    b = CumulativeCell(D(2020, 1, 1), D(2020, 12, 31), D(2020, 12, 31), {"paid_loss": 20, "earned_premium": 100},
+                       Metadata(loss_details={"cov": "b"}))
+    out.append(([a, b], False, {"kind": "directed:S1", "slice_diff": "loss_details"}))
     return out
 
 
@@ -137,7 +145,12 @@ def run(ctx):
             ctx.hist("gen:invalid-triangle")
             continue
         tcells = list(t.cells)
-        fails = S.summarize_oracle(tcells, prem, status, res, notes)
+        known = []
+        fails = S.summarize_oracle(tcells, prem, status, res, notes, known)
+        if known:                              # known finding S1 (suppressed only while listed as `known`)
+            ctx.hist("known:S1-premium-none-from-first-cell")
+            ctx.violation("impl-violation", f"summarize violates C09: {known[0]}", violation_data(tcells, prem, known, info),
+                          found_input=True, finding_class=S1_CLASS)
         ctx.hist(f"kind:{info['kind'].split(':')[0]}")
         ctx.hist(f"slice_diff:{info.get('slice_diff')}")
         ctx.hist(f"basis:{info.get('basis', 'cum')}/prem={prem}")
@@ -168,10 +181,6 @@ def run(ctx):
     if body:
         files.append((body, recs))
     ctx.sample({"case": violation_data(cases[30][0], cases[30][1], [], cases[30][2])})
-    if notes:
-        ctx.notes.append(f"{len(notes)} output values were None because the first cell of a group lacks a NON_LOSS field "
-                         "under summarize_premium=False (reported to the lead as an observation)")
-
     # ------------------------------------------------------------------ correspondence inside coqc
     mism = []
     if gen_ok:
@@ -204,7 +213,7 @@ def run(ctx):
             ctx.violation("correspondence", f"case file did not evaluate: {m[1]}", {"file": m[1], "output": m[2]}, found_input=False)
             continue
         tcells, prem, info, status, res = m[3]
-        fails = S.summarize_oracle(tcells, prem, status, res)
+        fails = S.summarize_oracle(tcells, prem, status, res, None, [])
         data = violation_data(tcells, prem, fails or [m[0]], info)
         data["result"] = "raised " + type(res).__name__ if status == "err" else S.cells_to_data(res)
         spec_says_no = m[0].startswith("summ_spec_b false on the implementation")
@@ -222,7 +231,8 @@ def replay(ctx, data):
     prem = data.get("summarize_premium", True)
     t = Triangle(cells)
     status, res = S.run_impl(lambda: t.summarize(summarize_premium=prem))
-    fails = S.summarize_oracle(list(t.cells), prem, status, res)
+    known = []
+    fails = S.summarize_oracle(list(t.cells), prem, status, res, None, known) + known
     print(f"summarize(summarize_premium={prem}) on {len(cells)} cells ->",
           "raised " + type(res).__name__ if status == "err" else f"{len(res)} cells")
     if status == "ok":
